@@ -129,4 +129,87 @@ theorem c17_gen_set_eq (g : Gen.C17.validPeers) (id : SetId) (peers : List Ident
     · simp [VP.set, List.lookup]
     · intro x
       simp [setOf, List.map_reverse, Function.comp]
+/-! ### `validPeers.get` (round 7)
+
+The function returns the members of a set by ranging over a Go map (`peerList = append(peerList, peer)`): the order of
+the result is unspecified.  The translation (`"map_order_canonical"`) walks the keys in the one order of
+`Gen.Rt.Map.keys`; the theorem therefore speaks about the result as a *set without repetitions*.  `"nil_slices"`:
+the nil slice (returned while the table is the nil map) is `none`, distinguishable from the empty slice. -/
+
+private theorem entriesAux_keys (l : List (PeerId × Unit)) (seen : List PeerId) :
+    ((Gen.Rt.Map.entriesAux l seen).map (·.1)).Nodup ∧
+    ∀ x, x ∈ (Gen.Rt.Map.entriesAux l seen).map (·.1) ↔ (x ∈ l.map (·.1) ∧ x ∉ seen) := by
+  induction l generalizing seen with
+  | nil => simp [Gen.Rt.Map.entriesAux]
+  | cons e r ih =>
+    obtain ⟨k, u⟩ := e
+    by_cases hk : seen.contains k = true
+    · have hk' : k ∈ seen := by simpa using hk
+      simp only [Gen.Rt.Map.entriesAux, hk, if_true]
+      refine ⟨(ih seen).1, fun x => ?_⟩
+      rw [(ih seen).2 x]
+      constructor
+      · rintro ⟨h1, h2⟩; exact ⟨by simp [h1], h2⟩
+      · rintro ⟨h1, h2⟩
+        simp only [List.map_cons, List.mem_cons] at h1
+        rcases h1 with h1 | h1
+        · subst h1; exact absurd hk' h2
+        · exact ⟨h1, h2⟩
+    · have hk' : k ∉ seen := by simpa using hk
+      have hk2 : seen.contains k = false := by simpa using hk
+      simp only [Gen.Rt.Map.entriesAux, hk2, Bool.false_eq_true, if_false, List.map_cons]
+      have ih' := ih (k :: seen)
+      refine ⟨?_, fun x => ?_⟩
+      · refine List.nodup_cons.mpr ⟨?_, ih'.1⟩
+        intro hmem
+        have := (ih'.2 k).mp hmem
+        exact this.2 (by simp)
+      · simp only [List.mem_cons, ih'.2 x]
+        constructor
+        · rintro (h | ⟨h1, h2⟩)
+          · subst h; exact ⟨Or.inl rfl, hk'⟩
+          · exact ⟨Or.inr h1, fun hs => h2 (Or.inr hs)⟩
+        · rintro ⟨h1 | h1, h2⟩
+          · exact Or.inl h1
+          · by_cases hx : x = k
+            · exact Or.inl hx
+            · exact Or.inr ⟨h1, fun hs => by rcases hs with hs | hs; exact hx hs; exact h2 hs⟩
+
+/-- **`validPeers.get` as translated**: the nil slice exactly while the table is the nil map (as `VP.get`); otherwise a
+list **without repetitions** whose members are exactly the members of the set the model's `VP.get` returns for that set
+id (the empty list for an id never set) — the result of the Go function up to the order in which the map is walked. -/
+theorem c17_gen_get_eq (g : Gen.C17.validPeers) (id : SetId) :
+    ((Gen.C17.validPeers_get g id).isNone = (VP.get (rawOf g.peers) id).isNone) ∧
+    ∀ r, Gen.C17.validPeers_get g id = some r →
+      r.Nodup ∧ ∀ x, x ∈ r ↔ x ∈ (VP.get (rawOf g.peers) id).getD [] := by
+  obtain ⟨tbl⟩ := g
+  cases tbl with
+  | none => exact ⟨rfl, fun r h => by simp [Gen.C17.validPeers_get, Gen.Rt.Map.isNil] at h⟩
+  | some l =>
+    have hloop : ∀ (ks acc : List PeerId),
+        Gen.Rt.loop (ρ := Option (List PeerId)) ks acc (fun peerList (peer : PeerId) => Gen.Rt.Step.next (peerList ++ [peer])) =
+          Sum.inr (acc ++ ks) := by
+      intro ks
+      induction ks with
+      | nil => intro acc; simp [Gen.Rt.loop]
+      | cons k r ih => intro acc; simp [Gen.Rt.loop, ih]
+    have hget : Gen.C17.validPeers_get ⟨some l⟩ id =
+        some (Gen.Rt.Map.keys (Gen.Rt.Map.get (some l) id none)) := by
+      simp only [Gen.C17.validPeers_get, Gen.Rt.Map.isNil, Option.isNone_some, Bool.false_eq_true, if_false, hloop,
+        List.nil_append]
+    refine ⟨by simp [hget, VP.get, rawOf], fun r hr => ?_⟩
+    rw [hget] at hr
+    cases hr
+    have hS : Gen.Rt.Map.get (some l) id none = (l.lookup id).getD none := by
+      simp [Gen.Rt.Map.get, Gen.Rt.Map.find]
+    have hM : (VP.get (rawOf (some l)) id).getD [] = setOf ((l.lookup id).getD none) := by
+      simp only [VP.get, rawOf, Option.map_some, Option.getD_some, lookup_map_snd]
+      cases List.lookup id l <;> rfl
+    rw [hS, hM]
+    have hk := entriesAux_keys (((l.lookup id).getD none).getD []) []
+    refine ⟨by simpa [Gen.Rt.Map.keys, Gen.Rt.Map.entries] using hk.1, fun x => ?_⟩
+    have hx := hk.2 x
+    simp only [List.not_mem_nil, not_false_eq_true, and_true] at hx
+    simpa [Gen.Rt.Map.keys, Gen.Rt.Map.entries, setOf] using hx
+
 end C17
